@@ -259,8 +259,8 @@ Section ChainP.
   Lemma discipline_flags : forall x, chain_discipline x = true ->
     clips (chain_flags x) = true /\ fresh_only (chain_flags x) = true.
   Proof.
-    intros x H. unfold chain_discipline in H. apply andb_prop in H as [H H3]. apply andb_prop in H as [H1 H2].
-    unfold chain_flags; simpl. rewrite H1, H2, H3. auto.
+    intros x H. unfold chain_discipline in H. apply andb_prop in H as [H H4]. apply andb_prop in H as [H H3]. apply andb_prop in H as [H1 H2].
+    unfold chain_flags; simpl. rewrite H1, H2, H3, H4. auto.
   Qed.
 End ChainP.
 
